@@ -441,6 +441,9 @@ func normalizeDomainpart(domainpart string) (string, error) {
 	if err != nil {
 		return domainpart, err
 	}
+	// The mapping turns other label separators into dots and does not reject
+	// empty labels, so the result may end in a label separator again.
+	domainpart = strings.TrimRight(domainpart, ".")
 
 	if l := len(domainpart); l < 1 || l > 1023 {
 		return domainpart, errInvalidDomainLen
